@@ -19,7 +19,12 @@ type reqSpec struct {
 	Endpoint string
 	Mode     string // host hostport header both tcp
 	Decoy    string
+	Conn     string // client-supplied Connection header lines ("\n"-separated), header/both modes
 }
+
+// hostile Connection headers: piko's own headers named as hop-by-hop options, in
+// the first or in a later header line
+var c01Conn = []string{"x-piko-endpoint", "close, X-Piko-Endpoint", "keep-alive\nx-piko-endpoint", "keep-alive\nX-Verif-Hop\nx-piko-endpoint, x-piko-forward"}
 
 func drawReq(c *vlib.Case, n int) reqSpec {
 	r := reqSpec{Entry: c.Pick("entry", n)}
@@ -31,6 +36,10 @@ func drawReq(c *vlib.Case, n int) reqSpec {
 	r.Mode = c.OneOf("mode", "host", "hostport", "header", "both")
 	if r.Mode == "both" {
 		r.Decoy = httpEps[c.Pick("decoy", len(httpEps))]
+	}
+	if (r.Mode == "both" || r.Mode == "header") && c.Chance("connectionHeader", 1, 3) {
+		r.Conn = c01Conn[c.Pick("conn", len(c01Conn))]
+		c.Class("client-connection-header")
 	}
 	return r
 }
@@ -111,7 +120,11 @@ func (w *c01World) issue(r reqSpec, settled bool, expectServed *bool) (string, b
 		}
 		return "", true
 	}
-	res := Get(node, r.Endpoint, r.Mode, r.Decoy, nil)
+	var hdr map[string]string
+	if r.Conn != "" {
+		hdr = map[string]string{"Connection": r.Conn}
+	}
+	res := Get(node, r.Endpoint, r.Mode, r.Decoy, hdr)
 	if res.Err != nil {
 		if settled {
 			return fmt.Sprintf("http %s (%s) via %s: transport error in a settled cluster: %v", r.Endpoint, r.Mode, node.ID, res.Err), false
@@ -196,7 +209,7 @@ func (w *c01World) waitSettled() {
 	if Eventually(2*Deadline(), w.settled) {
 		return
 	}
-	w.c.Fatalf("C01: routing information did not settle within %v: placement %v", 3*Deadline(), w.placement())
+	Missf(w.c, "C01: routing information did not settle within %v: placement %v; views: %s", 3*Deadline(), w.placement(), w.cl.Views())
 }
 
 func TestC01(t *testing.T) {
@@ -209,7 +222,7 @@ func TestC01(t *testing.T) {
 		}
 		defer cl.Stop()
 		if !cl.WaitMembership(Deadline()) {
-			c.Fatalf("C01: %d nodes did not form a cluster within %v", N, Deadline())
+			Missf(c, "C01: %d nodes did not form a cluster within %v", N, Deadline())
 		}
 		w := &c01World{c: c, cl: cl, connecting: map[string]string{}}
 		defer func() {
@@ -438,7 +451,7 @@ func TestC01(t *testing.T) {
 				return true
 			}
 			if !Eventually(Deadline(), flagged) && !Eventually(2*Deadline(), flagged) {
-				c.Fatalf("C01: survivors still consider the lost node %s active after %v", victim.ID, 3*Deadline())
+				Missf(c, "C01: survivors still consider the lost node %s active after %v", victim.ID, 3*Deadline())
 			}
 			total := map[string]int{}
 			for _, u := range w.ups {
